@@ -154,7 +154,11 @@ RULE = ("names: 40% of the random trees and all cross-format trees draw file / d
         "marker, end marker), every kill point of a second call over an interrupted first one (the wipe), random 2-3 "
         "successive kills; always followed by two uninterrupted calls.  Folder of zips x num_workers: 1..9 archives x "
         "num_workers 0..4 -- all 45 combinations for both functions in the thorough tier, all archive counts x "
-        "num_workers {0, 1, two of 2..4} in the quick tier -- uninterrupted and with killed calls before.  Thorough: "
+        "num_workers {0, 1, two of 2..4} in the quick tier -- uninterrupted and with killed calls before.  "
+        "zips_ratio_matrix: directory sources with k archives and m other files for every (k, m), k in 1..3 (thorough 0..5), m in "
+        "0..k+3, i.e. on both sides of the 'mostly zips' boundary (archives >= 1 and >= floor(n/2) of the n entries <=> m <= k+1), "
+        "both functions; the oracle classifies the source by that documented rule on its own (rule_mostly_zips) and wants every "
+        "archive extracted and source_format 'zips' / was_zip_classwise, or the directory copied verbatim and 'raw'.  Thorough: "
         "every file-system system call of a fresh copy / of a copy over an interrupted one SIGKILLed on entry under "
         "strace, and the uninterrupted call under strace, the system-call log compared with the model's plan in Coq.  "
         "Non-trivial = at least one killed invocation that had performed an operation, or a multi-worker extraction; "
@@ -705,10 +709,34 @@ def zips_source(rng, variant, nz):
     return {"items": items}
 
 
-def expected_content(case):
-    """independent description of what a complete copy contains: {relative path tuple: None (dir) | bytes}"""
+def rule_mostly_zips(names):
+    """the documented rule, stated independently of the code ("check if subfolders are zips (allow files such as a README
+    inside the folder)"): a directory source is a FOLDER OF ZIPS iff it holds at least one *.zip entry and the *.zip entries
+    are at least floor(n / 2) of its n entries; otherwise it is a plain folder that is copied verbatim"""
+    names = list(names)
+    k = sum(1 for nm in names if nm.endswith(".zip"))
+    return k >= 1 and 2 * k + 1 >= len(names)          # k >= floor(n / 2)  <=>  2k + 1 >= n
+
+
+def zips_is_plain(case):
+    """a "zips"-shaped source (archives + other files in one directory) that the rule classifies as a PLAIN folder"""
+    return case["fmt"] == "zips" and not rule_mostly_zips(nm for nm, _ in case["src"]["items"])
+
+
+def expected_content(case, seen=None):
+    """independent description of what a complete copy contains: {relative path tuple: None (dir) | bytes}
+    seen = the listing of the source directory (obs["src"]["dir"]): only used for the BYTES of archives that have to be
+    copied verbatim (zipfile stamps the time into them when the sandbox is built)"""
     out = {}
     src = case["src"]
+    if zips_is_plain(case):
+        seen = dict((nm, node) for nm, node in (seen or []))
+        for nm, it in src["items"]:
+            if "zip" in it:
+                out[(nm,)] = bytes(seen[nm]["f"]) if nm in seen and "f" in seen[nm] else b"<archive missing in the source>"
+            else:
+                out[(nm,)] = bytes(it["f"])
+        return out
 
     def add_member(pre, p, data):
         full = tuple(pre) + tuple(p)
@@ -1345,7 +1373,7 @@ def oracle_core(case, obs):
     dst = tuple(dst_comps(case))
     # (entries of the source named like the markers only occur in measurement cases -- they are excluded from the domain;
     # there the two names are not compared)
-    exp = {p: v for p, v in expected_content(case).items() if p not in ((SNAME,), (ENAME,))}
+    exp = {p: v for p, v in expected_content(case, (obs.get("src") or {}).get("dir")).items() if p not in ((SNAME,), (ENAME,))}
     if "logical" in case and exp != flatten_tree(case["logical"]):
         # the three source formats of one logical tree are all judged against that tree: they must agree with one another
         return "harness: the source of this format does not describe the logical tree it was generated from"
@@ -1403,11 +1431,19 @@ def oracle_core(case, obs):
                         return (f"{tag}: returned {r} but the local folder is not a copy of the source the relative_path names "
                                 f"({_rel_arg(case)!r} -> {case['rel']}.zip): it holds the content of the unrelated archive "
                                 f"{case['decoy_zip']} next to it: extra {extra[:4]} missing {missing[:4]}")
+                    if case["fmt"] == "zips":
+                        nms = [nm for nm, _ in case["src"]["items"]]
+                        kz = sum(1 for nm in nms if nm.endswith(".zip"))
+                        tag += (f" [source directory: {kz} *.zip of {len(nms)} entries, floor(n/2)={len(nms) // 2} -> "
+                                f"{'a folder of zips (every archive extracted)' if rule_mostly_zips(nms) else 'a plain folder (copied verbatim)'}"
+                                " by the documented rule]")
                     return (f"{tag}: returned {r} but the destination is not a complete copy of the source: "
                             f"missing {missing[:4]} extra {extra[:4]} different {diff[:4]}"
                             + (f"; num_workers={case.get('workers', 0)}, tasks handed to joblib: {jobs}" if jobs else ""))
                 # truthful result
                 want_fmt = {"plain": "raw", "zip": "zip", "zips": "zips"}[case["fmt"]]
+                if zips_is_plain(case):
+                    want_fmt = "raw"       # fewer archives than floor(n/2) of the n entries: a plain folder by the rule
                 if r["was_copied"]:
                     if nops == 0:
                         return f"{tag}: was_copied=True but no operation was performed"
@@ -1771,6 +1807,7 @@ def gen_cases(rng, tier):
     out += torn_cases(rng, tier, bases)
     out += measure_cases(rng, tier)
     out += zips_workers_matrix(rng, tier)
+    out += zips_ratio_matrix(rng, tier)
     if tier == "thorough":
         out += strace_cases(rng)
     return out
@@ -1868,6 +1905,35 @@ def zips_workers_matrix(rng, tier):
                               local_exists=rel is not None and rng.random() < 0.5, workers=w)
                 out.append(with_kills(b, []))
                 if rng.random() < (0.5 if tier == "thorough" else 0.2):
+                    n = max(1, count_ops(b))
+                    out.append(with_kills(b, [rng.randint(1, n) for _ in range(rng.choice([1, 1, 2]))]))
+    return out
+
+
+def zips_ratio_matrix(rng, tier):
+    """directory sources with k archives and m other files for every small (k, m), across the boundary of the "mostly zips"
+    rule (m = k-1, k, k+1 | k+2, k+3: n = k + m entries, archives >= floor(n/2) <=> m <= k+1), both functions; the oracle
+    classifies by the rule on its own (rule_mostly_zips) and wants the archives extracted / the directory copied verbatim
+    and the matching source_format / was_zip_classwise.  Uninterrupted + now and then killed once or twice."""
+    out = []
+    kmax = 3 if tier == "quick" else 5
+    for variant in ("folder", "image"):
+        for k in range(0 if tier == "thorough" else 1, kmax + 1):
+            for m in range(0, k + 4):
+                if k + m == 0:
+                    continue
+                src = zips_source(random.Random(rng.random()), variant, k)
+                items = [x for x in src["items"] if "zip" in x[1]]
+                extras = ["README", "LICENSE.txt", "notes.md", "checksums.sha1", "meta.json", "index.csv", ".listing",
+                          "zip", "x.zip.txt"]
+                rng.shuffle(extras)
+                items += [[extras[j], {"f": [82, 69, j][:rng.randrange(4)]}] for j in range(m)]
+                rng.shuffle(items)
+                rel = rng.choice([None, "ds", "a/ds"])
+                b = base_case(variant, "zips", rel, {"items": items}, local_exists=rel is not None and rng.random() < 0.5,
+                              workers=rng.choice([0, 0, 1]))
+                out.append(with_kills(b, []))
+                if rng.random() < (0.6 if tier == "thorough" else 0.25):
                     n = max(1, count_ops(b))
                     out.append(with_kills(b, [rng.randint(1, n) for _ in range(rng.choice([1, 1, 2]))]))
     return out
@@ -1979,7 +2045,7 @@ def shrink(case):
             for i in range(len(items)):
                 rest = items[:i] + items[i + 1:]
                 nzip = sum(1 for _, it in rest if "zip" in it)
-                if nzip >= 1 and nzip >= len(rest) // 2:
+                if rest:           # (any ratio of archives to other entries: the oracle classifies by the rule)
                     yield dict(case, src={"items": rest})
         # (num_workers is not shrunk: every change of it restarts joblib's worker processes, ~5 s each)
 
@@ -2070,6 +2136,10 @@ def features(case, obs):
         f.append(f"logical-tree[{case.get('ltag', '?')[:1]}]:{case['variant']}/{case['fmt']}")
     if case["fmt"] == "zips":
         f.append(f"zips={sum(1 for _, it in case['src']['items'] if 'zip' in it)},workers={case.get('workers', 0)}")
+        kz = sum(1 for _, it in case["src"]["items"] if "zip" in it)
+        mo = len(case["src"]["items"]) - kz
+        f.append("zips-ratio: others - archives = " + (str(mo - kz) if mo - kz in (-1, 0, 1, 2, 3) else ("<-1" if mo < kz else ">3"))
+                 + (" [plain by the rule]" if zips_is_plain(case) else ""))
     return f
 
 
